@@ -125,6 +125,8 @@ def run(ck: Check):
             continue
         for atom in ("line", "symbol") + (("char", "jsstr", "attrs") if small and len(data) < 70000 else ()):
             ex.one("minimize", {}, None, data, "Y" * 8, atom=atom, load=True, stream="block-boundary", model=False, cap=5, light=False)
+    from envmatrix import run_matrix
+    run_matrix(ck, ("C05",))
     # a test that edits the HEAD of the file in place while it runs (same length): every later candidate is written out
     # whole, so it begins with the original bytes again - also when the text in front of the region is large (8 KiB, 64 KiB)
     for plen in (10, 4095, 4096, 8191, 8192, 8193, 65536, 70000):
